@@ -131,6 +131,14 @@ pub trait World {
     fn directed() -> Vec<(String, Vec<Self::Op>)>;
 
     fn op_kind(op: &Self::Op) -> usize;
+    /// A short history for the concurrent phase whose *shape* (which crate functions, which sizes)
+    /// is fixed by `shape` — shared by all callers of one iteration — and whose values come from the
+    /// caller's own `rng`. Calls are repeated with identical arguments, so that a cache filled by the
+    /// first is hit by the second while another caller is inside the same function.
+    #[allow(dead_code)]
+    fn conc_history(_rng: &mut Rng, _shape: u64) -> Option<Vec<Self::Op>> {
+        None
+    }
     /// Kinds that create objects (kept when a history is thinned for the concurrent phase).
     #[allow(dead_code)]
     fn builder_kinds() -> &'static [usize] {
